@@ -73,7 +73,7 @@ fn subscribe_body_len(v5: bool, two: bool, with_sid: bool, with_prop: bool, cap:
 
 // @gv props=C02 tier=quick required=yes fns=write_subscribe_encoding_steps5,compute_subscribe_packet_length_properties5,compute_subscription_options_byte5
 // @gv bounds="SUBSCRIBE/MQTT5 with one subscription ('a/b'), subscription identifier any value in 1..268435455, no user property; symbolic packet id and subscription options"
-// @gv timeout=1200 mem=12
+// @gv timeout=1200 mem=5
 #[kani::proof]
 #[kani::unwind(14)]
 #[kani::stub(std::fmt::format, stub_format)]
@@ -81,7 +81,7 @@ fn c02_subscribe5_subid() { subscribe_body(true, false, true, false, 16) }
 
 // @gv props=C02 tier=quick required=yes fns=write_subscribe_encoding_steps5,compute_subscribe_packet_length_properties5,compute_subscription_options_byte5
 // @gv bounds="SUBSCRIBE/MQTT5 with two subscriptions and one user property, no subscription identifier; symbolic packet id and options"
-// @gv timeout=1200 mem=12
+// @gv timeout=1200 mem=5
 #[kani::proof]
 #[kani::unwind(18)]
 #[kani::stub(std::fmt::format, stub_format)]
@@ -89,7 +89,7 @@ fn c02_subscribe5_two_prop() { subscribe_body(true, true, false, true, 16) }
 
 // @gv props=C02 tier=quick required=yes fns=write_subscribe_encoding_steps311,compute_subscribe_packet_length_properties311
 // @gv bounds="SUBSCRIBE/MQTT3.1.1 with two subscriptions while MQTT5-only fields (identifier, user property, no-local, retain options) are set: none of them may reach the wire"
-// @gv timeout=1200 mem=12
+// @gv timeout=1200 mem=5
 #[kani::proof]
 #[kani::unwind(12)]
 #[kani::stub(std::fmt::format, stub_format)]
@@ -97,7 +97,7 @@ fn c02_subscribe311() { subscribe_body(false, true, true, true, 16) }
 
 // @gv props=C02 tier=quick required=yes fns=write_subscribe_encoding_steps5,compute_subscribe_packet_length_properties5
 // @gv bounds="SUBSCRIBE/MQTT5 with a subscription identifier (symbolic) and a user property value of 130 bytes: property section and remaining length both cross the one-byte VBI boundary"
-// @gv timeout=1200 mem=12
+// @gv timeout=1200 mem=5
 #[kani::proof]
 #[kani::unwind(18)]
 #[kani::stub(std::fmt::format, stub_format)]
